@@ -32,6 +32,44 @@ PROPS = {
         "trust": [],
         "assumptions": ["is_a graphs are acyclic (the property's quantifier; cyclic input makes the library recurse forever)"],
     },
+    "C02": {
+        "subs": [sub("C02", "run_C02", "spec_C02", W_IMPORTS + ["Run.C02"], 400, 4000)],
+        "run_modules": ["C02"],
+        "rule": "seeded ontologies with the three annotation kinds (overlapping numeric ids, different totals, records without terms, "
+                "repeated facts, facts on inner nodes whose ancestors are already linked via another child), supplied in random order; "
+                "non-trivial = >= 3 annotation facts and depth >= 2",
+        "trust": [], "assumptions": ["acyclic is_a graphs"],
+    },
+    "C03": {
+        "subs": [sub("C03", "run_C03", "spec_C03", W_IMPORTS + ["Run.C03"], 400, 4000)],
+        "run_modules": ["C03"],
+        "rule": "as C02 with up to 8 records per kind, kinds with zero records, terms linked to all records; IC compared bit-exactly "
+                "(Flocq binary32 division and multiplication, runtime logf supplied as a table on exactly the quotients that occur)",
+        "trust": ["Flocq 4.1 binary32 (IEEE-754) as the meaning of Rust f32 + - * /", "platform logf: oracle table produced by the harness with f32::ln"],
+        "assumptions": ["logf is sampled, not specified: the float layer of C03 is partial (DESIGN.md §2.6)"],
+    },
+    "C15": {
+        "subs": [sub("C15", "run_C15", "spec_C15", W_IMPORTS + ["Run.C15"], 500, 5000)],
+        "run_modules": ["C15"],
+        "rule": "builder call histories over present and absent term ids (absent parent / child / both, annotate_* of an absent term for new and "
+                "existing records, ids at and beyond the id-space border), interleaved with succeeding calls; each history is also run "
+                "without its failing calls; non-trivial = at least two failing calls",
+        "trust": [], "assumptions": ["acyclic is_a graphs"],
+    },
+    "C16": {
+        "subs": [sub("C16", "run_C16", "spec_C16", W_IMPORTS + ["Run.C16"], 250, 2500)],
+        "run_modules": ["C16"],
+        "rule": "each fact set is supplied to the Builder in three independent random orders (terms, links, annotation calls); "
+                "non-trivial = diamond and depth >= 3",
+        "trust": [], "assumptions": ["one name per id (the property's side condition)"],
+    },
+    "C19": {
+        "subs": [sub("C19", "run_C19", "spec_C19", W_IMPORTS + ["Run.C19"], 400, 4000)],
+        "run_modules": ["C19"],
+        "rule": "ontologies with 0-3 modifier branches below HP:1, terms below several categories and below both kinds of branch, "
+                "and ontologies missing one or both roots; built with build_with_defaults; non-trivial = both roots and >= 5 terms",
+        "trust": [], "assumptions": [],
+    },
     "C12": {
         "subs": [sub("C12", "run_C12", "spec_C12", ["Run.C12"], 3000, 30000)],
         "run_modules": ["C12"],
